@@ -126,6 +126,12 @@ def const_case(rec, seedt, tier):
         deg = int(rng.integers(0, min(order, 7) + 1))
         co = rng.uniform(-1, 1, size=deg + 1)
         x = np.polynomial.polynomial.polyval(t, co)
+    usc = 1.0
+    if rkind != "int" and rng.random() < 0.25:
+        # the same samples in another unit (exact rescaling; the tolerances below are relative)
+        usc = 2.0 ** int(rng.choice([-300, -100, -30, 30, 100, 300]))
+        x = x * usc
+        rec.count("const_cases_in_rescaled_units")
     desc = {"kind": "const", "seed": list(seedt), "order": order, "N": N, "s": s, "skind": skind,
             "rec": rkind, "tier": tier}
     rec.case(desc, nontrivial=False)
@@ -188,7 +194,7 @@ def const_case(rec, seedt, tier):
             rec.count("poly_cases")
             n = np.arange(lo_n, hi_n + 1)
             dt = 2.0 / (N - 1) if N > 1 else 0.0
-            exact = np.polynomial.polynomial.polyval(-1 + (n + s) * dt, co)
+            exact = usc * np.polynomial.polynomial.polyval(-1 + (n + s) * dt, co)
             err = float(np.max(np.abs(out[n] - exact)))
             tol = 1e-9 * max(mx, float(np.max(np.abs(exact))), 1e-300)
             rec.ratio("poly_err_over_tol", err / tol)
@@ -238,6 +244,8 @@ def varying_case(rec, seedt, tier):
     else:
         sh = rng.integers(-4, 5, size=N).astype(float)
     x = rng.standard_normal(N) if rng.random() < 0.7 else np.linspace(-1, 1, N) ** 3
+    if rng.random() < 0.25:
+        x = x * 2.0 ** int(rng.choice([-300, -100, -30, 30, 100, 300]))
     desc = {"kind": "varying", "seed": list(seedt), "order": order, "N": N, "shifts": kind,
             "tier": tier}
     rec.case(desc, nontrivial=False)
